@@ -19,8 +19,8 @@ import (
 	"sigs.k8s.io/controller-runtime/pkg/client"
 	"sigs.k8s.io/controller-runtime/pkg/webhook/admission"
 
-	zz "github.com/AliyunContainerService/terway/internal/zzverif"
 	"github.com/AliyunContainerService/terway/deviceplugin"
+	zz "github.com/AliyunContainerService/terway/internal/zzverif"
 	"github.com/AliyunContainerService/terway/pkg/apis/network.alibabacloud.com/v1beta1"
 	"github.com/AliyunContainerService/terway/types"
 	"github.com/AliyunContainerService/terway/types/controlplane"
@@ -31,10 +31,10 @@ var errZZ = errors.New("api server error")
 
 type zzAPI struct {
 	client.Client
-	podENI   *v1beta1.PodENI
-	pns      []v1beta1.PodNetworking
-	listErr  bool
-	nsErr    bool
+	podENI  *v1beta1.PodENI
+	pns     []v1beta1.PodNetworking
+	listErr bool
+	nsErr   bool
 }
 
 func (c *zzAPI) Get(ctx context.Context, key client.ObjectKey, obj client.Object, opts ...client.GetOption) error {
